@@ -56,7 +56,7 @@ type Result struct {
 func Check(data []byte, simple bool, values []interface{}, ends []int, resets []int) Result {
 	var parsed *hpref.Parsed
 	var err error
-	opt := hpref.Options{Simple: simple}
+	opt := hpref.Options{Simple: simple, AllowError: true} // an error value is legal as a top-level value only
 	if resets != nil {
 		parsed, err = hpref.ParseSegments(data, resets, opt)
 	} else {
